@@ -43,6 +43,18 @@ Proof.
   cbn [attx_ok]. rewrite Htv, Hre. reflexivity.
 Qed.
 
+Lemma conv_pos_plain pos : pos_negnum c pos = false /\ pos_hyphen c pos = false.
+Proof.
+  unfold pos_negnum, pos_hyphen. destruct (get_pos c pos) as [a|] eqn:Hg; [|split; reflexivity].
+  destruct (conv_args c Hconv a (get_pos_in c pos a Hg)) as [H1 [H2 _]]. rewrite H1, H2. split; reflexivity.
+Qed.
+
+Lemma conv_lookahead pos : lookahead_at c pos = false.
+Proof.
+  destruct (conv_parts c Hconv) as [_ [_ [_ [Hamp Hlow]]]]. unfold lookahead_at, Escape.low_index_mults_any.
+  unfold low_index_multiple in Hlow. rewrite Hlow, Hamp. reflexivity.
+Qed.
+
 Lemma wf_wfx_item pst pos it : wf_item c pst pos it = true -> wfx_item c pst pos it = true.
 Proof.
   unfold wf_item, wfx_item. intros H. apply andb_prop in H. destruct H as [H1 H2]. rewrite H1. cbn [andb].
@@ -50,14 +62,18 @@ Proof.
   - apply andb_prop in H2. destruct H2 as [H2 H3]. rewrite H2. cbn [andb].
     apply conv_sepx; [|exact H3]. intros a G. apply (get_long_in c n a G).
   - apply andb_prop in H2. destruct H2 as [H2 H4]. apply andb_prop in H2. destruct H2 as [H2 H3].
-    rewrite H2, H4. cbn [andb]. rewrite andb_true_r.
+    rewrite H2, H4. cbn [andb].
+    assert (CC : forall r, cluster_clear c pos r = true).
+    { intros r. unfold cluster_clear. destruct (conv_pos_plain pos) as [E1 E2]. rewrite E1, E2. reflexivity. }
+    rewrite CC, !andb_true_r.
     destruct t as [|o v|o v|o vs]; cbn [wf_tail wfx_tail] in *; try exact H3.
     + apply andb_prop in H3. destruct H3 as [H3 H7]. apply andb_prop in H3. destruct H3 as [H3 H6]. apply andb_prop in H3. destruct H3 as [H3 H5].
       rewrite H3, H6, H7. cbn [andb]. rewrite !andb_true_r. apply conv_attx; [|exact H5]. intros a G. apply (get_short_in c o a G).
     + apply andb_prop in H3. destruct H3 as [H3 H5]. rewrite H3. cbn [andb].
       apply conv_sepx; [|exact H5]. intros a G. apply (get_short_in c o a G).
-  - unfold posx_ok. rewrite H2. cbn [andb]. destruct (pos_ok_parts _ _ _ H2) as [a [v [vs' [Hg _]]]]. rewrite Hg.
-    destruct (conv_args c Hconv a (get_pos_in c pos a Hg)) as [_ [_ [_ Ht]]].
+  - unfold posx_ok. rewrite H2. cbn [orb andb]. destruct (pos_ok_parts _ _ _ H2) as [a [v [vs' [Hg _]]]]. rewrite Hg.
+    destruct (conv_args c Hconv a (get_pos_in c pos a Hg)) as [Hh [Hn [_ Ht]]].
+    destruct (conv_args_pos c Hconv a (get_pos_in c pos a Hg)) as [Hlast Htva]. rewrite Hlast, Htva, Hh, Hn, conv_lookahead. cbn [negb andb]. rewrite orb_true_r, !andb_true_r.
     apply forallb_forall. intros w _. unfold check_terminator. rewrite Ht. reflexivity.
 Qed.
 
